@@ -7,7 +7,9 @@ from typing import List
 from BPTK_Py import Model, Agent, DataCollector, SimultaneousScheduler
 
 DT = float(os.environ.get("C12_DT", "1"))
-DELETE_IN_ACT = int(os.environ.get("C12_DELETE", "0"))
+START = int(os.environ.get("C12_START", "-1"))
+COLLECT = int(os.environ.get("C12_COLLECT", "-1"))
+MAXSTOP = int(os.environ.get("C12_MAXSTOP", "3"))
 
 
 class _Ag(Agent):
@@ -111,7 +113,8 @@ def run_single_steps(stop, nsteps, npop):
 
 def _whole(start: int, stop: int, collect: bool, npop: int) -> bool:
     """
-    pre: 0 <= start <= 3 and 1 <= stop <= 3 and 0 <= npop <= 3
+    pre: 0 <= start <= 3 and 1 <= stop <= MAXSTOP and 0 <= npop <= 3
+    pre: (START < 0 or start == START) and (COLLECT < 0 or collect == (COLLECT == 1))
     post: _
     """
     return run_whole(start, stop, collect, npop) is None
